@@ -79,6 +79,7 @@ static void gen_plan(const harness_t *h, plan_t *p, uint64_t run_seed, int tier)
 /* access to decisions taken (sim_int.h is private; use accessor) */
 int sim_decisions_taken(const short **out);
 
+static FILE *g_in;
 static void exec_plan(const harness_t *h, const plan_t *p, sim_result_t *res) {
 	sim_begin(p);
 	if (h->pre) h->pre(p);
@@ -86,6 +87,8 @@ static void exec_plan(const harness_t *h, const plan_t *p, sim_result_t *res) {
 	sim_loop();
 	if (h->post && !sim_violated()) h->post(p);
 	sim_end(res);
+	/* a run may have taken descriptor 0 for the simulated process (C11): put the placeholder back */
+	if (-1 == fcntl(0, F_GETFD)) { int n = open("/dev/null", O_RDONLY); if (n > 0) { dup2(n, 0); close(n); } }
 }
 
 static void print_plan_prefixed(const plan_t *p, const char *pfx, int with_taken) {
@@ -239,7 +242,7 @@ static int cmd_serve(int argc, char **argv) {
 	plan_init(&plan);
 	for (;;) {
 		sim_result_t res;
-		int rc = plan_parse(&plan, stdin);
+		int rc = plan_parse(&plan, g_in);
 		if (rc == 1) break;
 		if (rc < 0) { printf("ERROR parse\n"); fflush(stdout); continue; }
 		exec_plan(h, &plan, &res);
@@ -291,6 +294,13 @@ int main(int argc, char **argv) {
 	/* never outlive the driver (a driver killed by a timeout once left workers spinning in an endless loop of a
 	 * changed library for hours, starving later runs) */
 	prctl(PR_SET_PDEATHSIG, SIGKILL);
+	/* descriptor 0 belongs to the simulated process (a daemon without stdin gets number 0 for the first thing it opens:
+	 * C11 does that on purpose): our own input moves out of the way, a placeholder keeps 0 taken otherwise */
+	{
+		int in2 = fcntl(0, F_DUPFD_CLOEXEC, 700);
+		if (in2 >= 0) { g_in = fdopen(in2, "r"); close(0); if (0 != open("/dev/null", O_RDONLY)) { /* cannot happen */ } }
+		if (!g_in) g_in = stdin;
+	}
 	setvbuf(stdout, NULL, _IOLBF, 0);
 	signal(SIGPIPE, SIG_IGN); /* the pool blocks it in its threads; fibers share one OS thread */
 	sim_install_crash_handler();
